@@ -4,6 +4,7 @@ import (
 	"fmt"
 	"go/token"
 	"go/types"
+	"sort"
 
 	"golang.org/x/tools/go/ssa"
 
@@ -197,6 +198,85 @@ func intHelperKind(fn *ssa.Function) string {
 	return ""
 }
 
+// copySeg: copy(ms[off:], src) into a part buffer built as make([]byte, n) + copies.
+type copySeg struct {
+	off  int64
+	src  ssa.Value
+	call *ssa.Call
+}
+
+// copiesInto lists the copies into ms at constant offsets; clean reports that ms is used for nothing else than those
+// copies and being stored (handed on) as a whole.
+func copiesInto(ms *ssa.MakeSlice) (segs []copySeg, clean bool) {
+	clean = true
+	if ms.Referrers() == nil {
+		return nil, false
+	}
+	isCopyTo := func(call *ssa.Call, dst ssa.Value) bool {
+		b, ok := call.Call.Value.(*ssa.Builtin)
+		return ok && b.Name() == "copy" && call.Call.Args[0] == dst
+	}
+	for _, r := range *ms.Referrers() {
+		switch x := r.(type) {
+		case *ssa.Call:
+			if isCopyTo(x, ms) {
+				segs = append(segs, copySeg{0, x.Call.Args[1], x})
+			} else {
+				clean = false
+			}
+		case *ssa.Slice:
+			off := int64(0)
+			if x.Low != nil {
+				k, isK := constInt(x.Low)
+				if !isK {
+					clean = false
+					continue
+				}
+				off = k
+			}
+			if x.High != nil || x.Referrers() == nil {
+				clean = false
+				continue
+			}
+			for _, rr := range *x.Referrers() {
+				if call, ok := rr.(*ssa.Call); ok && isCopyTo(call, x) {
+					segs = append(segs, copySeg{off, call.Call.Args[1], call})
+				} else if _, isDbg := rr.(*ssa.DebugRef); !isDbg {
+					clean = false
+				}
+			}
+		case *ssa.Store:
+			if x.Val != ssa.Value(ms) {
+				clean = false
+			}
+		case *ssa.DebugRef:
+		default:
+			clean = false
+		}
+	}
+	sort.Slice(segs, func(i, j int) bool { return segs[i].off < segs[j].off })
+	return segs, clean
+}
+
+// literalOctets: the elements of a []byte{...} literal (new [n]byte with element stores, sliced whole).
+func literalOctets(v ssa.Value) []ssa.Value {
+	sl, ok := v.(*ssa.Slice)
+	if !ok || sl.Low != nil || sl.High != nil {
+		return nil
+	}
+	al, ok := sl.X.(*ssa.Alloc)
+	if !ok {
+		return nil
+	}
+	vals := arrayStores(al)
+	for _, x := range vals {
+		if x == nil {
+			return nil
+		}
+	}
+	return vals
+}
+
 func headerOf(fn *ssa.Function) ([]ssa.Value, token.Pos) {
 	for _, b := range fn.Blocks {
 		for _, ins := range b.Instrs {
@@ -206,6 +286,12 @@ func headerOf(fn *ssa.Function) ([]ssa.Value, token.Pos) {
 			}
 			if sl, ok := ms.Type().Underlying().(*types.Slice); !ok || !isByte(sl.Elem()) {
 				continue
+			}
+			// make([]byte, 6+n) ; copy(part, []byte{six octets}) ; copy(part[6:], payload)
+			if segs, clean := copiesInto(ms); clean && len(segs) == 2 && segs[0].off == 0 {
+				if h := literalOctets(segs[0].src); len(h) > 0 && int64(len(h)) == segs[1].off {
+					return h, ms.Pos()
+				}
 			}
 			if k, ok := constInt(ms.Len); !ok || k != 0 {
 				continue
